@@ -67,8 +67,16 @@ func (r *run) execCall(fr *frame, st *State, instr ssa.Value, c *ssa.CallCommon,
 // value was loaded from, or the named function type.
 func (r *run) dynContract(c *ssa.CallCommon) *Contract {
 	if c.IsInvoke() {
-		if n, ok := c.Value.Type().(*types.Named); ok && n.Obj().Pkg() != nil {
-			return r.eng.Contracts["iface:"+n.Obj().Pkg().Path()+"."+n.Obj().Name()+"."+c.Method.Name()]
+		if n, ok := types.Unalias(c.Value.Type()).(*types.Named); ok && n.Obj().Pkg() != nil {
+			if ct := r.eng.Contracts["iface:"+n.Obj().Pkg().Path()+"."+n.Obj().Name()+"."+c.Method.Name()]; ct != nil {
+				return ct
+			}
+		}
+		// the interface that declares the method (embedded interfaces)
+		if sig, ok := c.Method.Type().(*types.Signature); ok && sig.Recv() != nil {
+			if n, ok := types.Unalias(sig.Recv().Type()).(*types.Named); ok && n.Obj().Pkg() != nil {
+				return r.eng.Contracts["iface:"+n.Obj().Pkg().Path()+"."+n.Obj().Name()+"."+c.Method.Name()]
+			}
 		}
 		return nil
 	}
@@ -667,7 +675,16 @@ func (r *run) reflectDispatch(fr *frame, st *State, name string, lhs, rhs Val, r
 	var cases []caseRes
 	var guards []string
 	r.oblige(fr.name, "nil-deref", reach, fmt.Sprintf("(not ((_ is nil_any) %s))", lhs.Term), "reflect.TypeOf(lhs).MethodByName on a nil interface", pos)
+	var static *types.Interface
+	if lhs.Type != nil {
+		if it, ok := lhs.Type.Underlying().(*types.Interface); ok && it.NumMethods() > 0 {
+			static = it
+		}
+	}
 	for _, t := range r.eng.Sorts.universe {
+		if static != nil && !types.Implements(t, static) {
+			continue // the static type of lhs rules this dynamic type out
+		}
 		ms := r.eng.Prog.MethodSets.MethodSet(t)
 		var sel *types.Selection
 		for i := 0; i < ms.Len(); i++ {
@@ -693,9 +710,35 @@ func (r *run) reflectDispatch(fr *frame, st *State, name string, lhs, rhs Val, r
 		_, pIsIface := P.Underlying().(*types.Interface)
 		var out []Val
 		if !pIsIface {
-			// the guard "arg1.ConvertibleTo(TypeOf(rhs))" can be true (early return) and the
-			// reflective call needs rhs assignable to P: outside what the code base has today
-			r.unsupported("reflective comparator %s.%s has a concrete parameter type", shortName(t), name)
+			// concrete parameter type P: the guard "arg1.ConvertibleTo(reflect.TypeOf(rhs))" is
+			// decided per dynamic type of rhs with go/types' convertibility relation
+			var convs []string
+			for _, u := range r.eng.Sorts.universe {
+				if types.ConvertibleTo(P, u) {
+					convs = append(convs, r.eng.Sorts.IsType(u, rhs.Term))
+				}
+			}
+			conv := or(convs...)
+			// not convertible: the method is called reflectively; reflect panics unless the
+			// argument is assignable to P (here: has exactly that type)
+			isP := r.eng.Sorts.IsType(P, rhs.Term)
+			r.oblige(fr.name, "reflect-call", and(reach, g, not(conv)), isP, "reflect.Value.Call: argument assignable to the parameter type of "+shortName(t)+"."+name, pos)
+			arg := Val{Term: r.eng.Sorts.Unbox(P, rhs.Term), Sort: r.eng.Sorts.SortOf(P), Type: P}
+			res := r.callStatic(fr, cst, m, []Val{recv, arg}, nil, and(reach, g, not(conv)), pos, m.Signature)
+			if tryEq {
+				if len(res) != 2 {
+					r.unsupported("TryEqual of %s does not return (bool, bool)", shortName(t))
+				}
+				out = []Val{{Term: fmt.Sprintf("(ite %s false %s)", conv, res[0].Term), Sort: "Bool", Type: boolT}, {Term: fmt.Sprintf("(ite %s false %s)", conv, res[1].Term), Sort: "Bool", Type: boolT}, bv("true")}
+			} else {
+				if len(res) < 1 || res[0].Sort != "Bool" {
+					r.unsupported("%s of %s does not return bool first", name, shortName(t))
+				}
+				boxed, _ := r.eng.Sorts.Box(boolT, res[0].Term)
+				out = []Val{{Term: fmt.Sprintf("(ite %s nil_any %s)", conv, boxed), Sort: "Any"}, bv("true")}
+			}
+			cases = append(cases, caseRes{g, out, cst})
+			continue
 		}
 		// P is an interface: reflect's ConvertibleTo(P, concrete type) is false, the method is called
 		res := r.callStatic(fr, cst, m, []Val{recv, rhs}, nil, and(reach, g), pos, m.Signature)
